@@ -5,6 +5,43 @@
 Q_GHOST_DEFS
 #endif
 
+#if defined(UNIT_APPEND)
+#include "array.h"
+/* mpt_message_append: every fragment of the message (first part + continuation list, empty fragments anywhere) is
+ * appended to the array in order; on failure the array length is what it was.  mpt_array_append is a stand-in of its
+ * C04 contract over a flat destination (appends len bytes behind the used part, or fails at any call). */
+#define DCAP (3 * LCAP + 4)
+static struct { MPT_STRUCT(buffer) b; uint8_t data[DCAP]; } h_dst;
+static int g_appends, g_fail_at;
+void *mpt_array_append(MPT_STRUCT(array) *a, size_t len, const void *base)
+{
+	size_t i, u = h_dst.b._used;
+	g_appends++;
+	if (g_appends == g_fail_at || len > DCAP - u) return 0;
+	for (i = 0; i < LCAP; i++) if (i < len) h_dst.data[u + i] = base ? ((const uint8_t *) base)[i] : 0;
+	h_dst.b._used = u + len; a->_buf = &h_dst.b;
+	return h_dst.data + u;
+}
+void harness(void)
+{
+	FRAG_BUILD();
+	IN(size_t, in_old); IN(int, in_fail_at); IN(int, in_has_buf);
+	MPT_STRUCT(message) msg = MPT_MESSAGE_INIT; MPT_STRUCT(array) arr = { 0 }; int r; size_t old;
+	V_REQ(in_old <= 4);
+	FRAG_MSG(msg);
+	old = in_has_buf ? in_old : 0;
+	h_dst.b._used = old; *((size_t *) &h_dst.b._size) = DCAP; arr._buf = in_has_buf ? &h_dst.b : 0;
+	g_fail_at = in_fail_at; g_appends = 0;
+	r = mpt_message_append(&arr, &msg);
+	V_CHECK("append: success exactly when no array operation failed", (r >= 0) == !(in_fail_at >= 1 && g_appends >= in_fail_at));
+	V_CHECK("append: on success the array grew by the whole message", IMP(r >= 0, h_dst.b._used == old + ftotal));
+	V_CHECK("append: appended byte k is byte k of the concatenated fragments (nothing behind an empty fragment is dropped)", IMP(r >= 0 && in_k < ftotal, h_dst.data[old + in_k] == FLAT(in_k)));
+	V_CHECK("append: on failure the array has its old length", IMP(r < 0 && arr._buf, h_dst.b._used == old));
+	V_COVER("empty fragment in the middle, data behind it", r >= 0 && fl1 == 0 && fl2 > 0 && fl0 > 0);
+	V_COVER("failed on the last fragment", r < 0 && g_appends == 3);
+	V_CANARY();
+}
+#else
 void harness(void)
 {
 #if defined(UNIT_GET)
@@ -48,3 +85,4 @@ void harness(void)
 #endif
 	V_CANARY();
 }
+#endif
